@@ -567,7 +567,10 @@ thread_local! {
 pub fn register_deadline(ms: u64) {
     let now = CLOCK_NOW.with(|n| n.get());
     CLOCK_CAND.with(|c| {
-        let _ = c.borrow_mut().insert(now + ms);
+        // a deadline beyond any run (e.g. Duration::MAX) is never a candidate instant
+        if ms < 1 << 40 {
+            let _ = c.borrow_mut().insert(now + ms);
+        }
     });
 }
 
